@@ -7,6 +7,7 @@ import "github.com/cuteLittleDevil/go-jt808/protocol/model"
 func init() {
 	vrtHarnesses["VerifC16Ranges"] = VerifC16Ranges
 	vrtHarnesses["VerifC16Wire"] = VerifC16Wire
+	vrtHarnesses["VerifC16ManyGaps"] = VerifC16ManyGaps
 }
 
 type c16Chunk struct{ off, n uint32 }
@@ -113,6 +114,57 @@ func VerifC16Wire() {
 	vrt_Assert(back.Parse(vMsg(rbody)) == nil, "terminal-side parser rejects the 0x9212 body")
 	vrt_Assert(vrt_DeepEqual(back.P0x9212RetransmitPacketList, want), "terminal-side parser reads different ranges")
 	vrt_Cover("wire-ranges", len(want) >= 2)
+}
+
+// VerifC16ManyGaps: the property quantifies over up to 255 gaps; the symbolic harnesses stop at 4
+// chunks. Here the layout is concrete (every other byte received, so g single-byte gaps) and the
+// count and the file-name length are large: g in {2, 25, 26, 31, 64, 128, 255}, names of 1, 13 and
+// 49 characters, chunks inserted in ascending or descending order (all concrete: this
+// harness is concrete execution of the real code, not a solver claim). The 0x9212 body must carry exactly the g ranges (2i, 1) in ascending order, and the
+// terminal-side parser must read the same list back.
+func VerifC16ManyGaps() {
+	g := []int{2, 25, 26, 31, 64, 128, 255}[vrt_Choose("gaps", 7)]
+	nameLen := []int{1, 13, 49}[vrt_Choose("nameLen", 3)]
+	desc := vrt_Choose("descending", 2) == 1
+	nb := make([]byte, nameLen)
+	for i := range nb {
+		nb[i] = 'a' + byte(i%26)
+	}
+	name := string(nb)
+	size := uint32(2*g - 1) // gaps at 0, 2, ..., 2g-2; received bytes at 1, 3, ..., 2g-3
+	p := &Package{FileName: name, FileSize: size, OffsetRecord: map[int]int{}, OffsetDataRecord: map[int][]byte{}}
+	for i := 0; i < g-1; i++ {
+		k := i
+		if desc {
+			k = g - 2 - i
+		}
+		p.OffsetRecord[2*k+1] = 1
+		p.CurrentSize++
+	}
+	h := newStandardJT808DataHandle(vDialects[0])
+	body := v1211Body(vFile{name: name, data: nil})
+	body[len(body)-4], body[len(body)-3], body[len(body)-2], body[len(body)-1] = byte(size>>24), byte(size>>16), byte(size>>8), byte(size)
+	progress := &PackageProgress{Record: map[string]*Package{name: p}, handle: h}
+	msg := vMsg(body)
+	msg.Header.ID = 0x1212
+	vrt_Assert(h.Parse(msg) == nil, "0x1212 body not accepted")
+	h.OnPackageProgressEvent(progress)
+	rbody, err := h.T0x1212.ReplyBody(msg)
+	vrt_Assert(err == nil, "no 0x9212 body")
+	vrt_Assert(len(rbody) == 1+nameLen+3+8*g, "0x9212 body length differs from 1 + name + 3 + 8 per missing range")
+	vrt_Assert(int(rbody[0]) == nameLen && vrt_StrEq(string(rbody[1:1+nameLen]), name), "0x9212 body does not start with the file name")
+	vrt_Assert(rbody[1+nameLen+1] == 1 && int(rbody[1+nameLen+2]) == g, "incomplete file must be answered with result 1 and the range count")
+	for i := 0; i < g; i++ {
+		o := rbody[1+nameLen+3+8*i:]
+		off := uint32(o[0])<<24 | uint32(o[1])<<16 | uint32(o[2])<<8 | uint32(o[3])
+		ln := uint32(o[4])<<24 | uint32(o[5])<<16 | uint32(o[6])<<8 | uint32(o[7])
+		vrt_Assert(off == uint32(2*i) && ln == 1, "a missing range is wrong, omitted or out of order in the 0x9212 body")
+	}
+	var back model.P0x9212
+	vrt_Assert(back.Parse(vMsg(rbody)) == nil, "terminal-side parser rejects the 0x9212 body")
+	vrt_Assert(len(back.P0x9212RetransmitPacketList) == g, "terminal-side parser reads a different number of ranges")
+	vrt_Cover("gaps-255", g == 255)
+	vrt_Cover("long-name", nameLen == 49)
 }
 
 // c16MaxSize: bound on the symbolic file size. The interval queries over full 32-bit sizes do not
